@@ -1,7 +1,7 @@
 SPECIFICATION Spec
 CONSTANTS
   MaxLen = 5
-  MaxKnot = 6
+  MaxKnot = 7
   YVals = {0, 3, 4}
   Emit = TRUE
 INVARIANTS AtKnots Between ErrorOutside
